@@ -60,6 +60,17 @@ def cases(rng, tier):
         c['v'] = KC.c2j(np.zeros(3))
         c['start'] = 'zero-vector'
         out.append(c)
+    # matrix-free maps that return their own argument or a view of it (identity and the exchange matrix, both Hermitian):
+    # the iteration must not write into what Afunc returned
+    for routine in ('lanczos', 'arnoldi'):
+        for n, m in ((2, 2), (3, 2), (4, 3), (3, 4 if routine == 'lanczos' else 3)):
+            for af in ('identity-alias', 'reverse-view'):
+                c = _case(rng, routine, n, m, False, 'generic', 'generic')
+                c['A'] = KC.c2j(np.eye(n) if af == 'identity-alias' else np.eye(n)[::-1])
+                c['real_A'] = True
+                c['afunc'] = af
+                c['spectrum'] = af
+                out.append(c)
     N = {'quick': 100, 'thorough': 900, 'search': 300}[tier]
     sizes = [2, 2, 3, 3, 3, 4, 4, 4, 5, 5, 6, 7] if tier != 'quick' else [2, 2, 3, 3, 3, 3, 4, 4, 4, 4, 5, 5, 5, 6, 7]
     for _ in range(N):
@@ -80,7 +91,8 @@ def impl(case):
     f = kr.lanczos_iteration if case['routine'] == 'lanczos' else kr.arnoldi_iteration
     try:
         with KC.Recorder() as rec:
-            out = f(lambda x: A @ x, v, case['m'])
+            afunc = {'identity-alias': (lambda x: x), 'reverse-view': (lambda x: x[::-1])}.get(case.get('afunc'), lambda x: A @ x)
+            out = f(afunc, v, case['m'])
     except Exception as e:
         return {'error': type(e).__name__}
     r = KC.lanczos_json(out) if case['routine'] == 'lanczos' else KC.arnoldi_json(out)
